@@ -3,13 +3,17 @@ from __future__ import annotations
 
 from typing import Any, Dict, Optional
 
+import sys
+
+import common
 import solver_property as SP
 from common import Ctx
 
 ID = "C09"
 PROPS = ["props/C09.v"]
 EXTRACTS = ["Solver"]
-THEOREMS = ['C09_no_candidate_is_honest_partial', 'C09_reported_chains_are_real', 'C09_refuted_internal_errors_escape', 'C09_refuted_unbounded_recursion']
+THEOREMS = ['C09_no_candidate_is_honest_partial', 'C09_reported_chains_are_real', 'C09_refuted_internal_errors_escape', 'C09_refuted_unbounded_recursion', 'C09_refuted_is_possible_unsound', 'C09_unusable_solution_line_is_diagnosed',
+            'C09_unusable_repository_argument_is_diagnosed_partial', 'C09_reported_failures_exit_1', 'C09_refuted_internal_error_reaches_the_user']
 MODES = ['conflict', 'conflict', 'dense', 'dense', 'extras', 'calm']
 RULE = ("universes (2-6 projects x 1-4 versions incl. pre/post/dev releases, requirements with the 7 operators, "
         "wildcards, extras, extra- and environment-markers, cycles, unreadable files, misnamed files), 1-3 input files, "
@@ -48,3 +52,296 @@ def replay(ctx: Ctx, payload: Dict[str, Any]) -> bool:
 
 def replay_known(ctx: Ctx, entry: Dict[str, Any]) -> Optional[bool]:
     return SP.replay_known(ctx, ID, entry)
+
+
+# ---- is_possible: "a set of constraints is called impossible only if no version could satisfy it" ----------
+
+POSS_VERSIONS = ["0", "0.9", "1", "1.0", "1.0.0.1", "1.0.0.5", "1.0.1", "1.1", "1.4.4.21", "1.5", "1.9.9", "2", "2.0",
+                 "2.0.0.1", "2.0.1", "2.1", "2.1.0", "2.1.0+cu118", "2.5", "3", "3.0", "3.0.0.1", "3.1", "4", "10", "0.0.1",
+                 "1.0.post1", "2.0.post1", "1.0+local", "2.0a1", "1.1rc1"]
+
+
+def gen_clause_set(rng) -> str:
+    import enc440
+    n = rng.choice([2, 2, 3, 3, 4])
+    out = []
+    for _ in range(n):
+        op = rng.choice(["==", "!=", "<", "<=", ">", ">=", ">=", "<", "==*", "!=*", "~="])
+        v = rng.choice(["1.0", "1.1", "2.0", "2.1", "2", "1", "3.0", "1.0.0.5", "1.4.4.22", "2.1.0", "0.9", "1.5"])
+        if op in ("==*", "!=*"):
+            out.append(op[:2] + v.split(".")[0] + rng.choice(["", ".0", ".1"]) + ".*")
+        elif op == "~=":
+            out.append("~=" + rng.choice(["1.0", "2.1", "1.4.4"]))
+        elif op == "==" and rng.random() < 0.2:
+            out.append("==" + rng.choice(["2.1.0+cu118", "1.0.0.5", "1.4.4.21"]))
+        else:
+            out.append(op + v)
+    return ",".join(out)
+
+
+def satisfying_version(spec_text: str):
+    from packaging.specifiers import SpecifierSet
+    from packaging.version import Version
+    s = SpecifierSet(spec_text)
+    for v in POSS_VERSIONS:
+        if s.contains(Version(v), prereleases=True):
+            return v
+    return None
+
+
+def possible_cases(ctx: Ctx, n: int):
+    """(spec text, impl answer, model answer) for generated clause sets"""
+    import enc440
+    import common
+    import req_compile.utils as U
+    import req_compile.versions as V
+    texts, lines = [], []
+    for _ in range(n):
+        t = gen_clause_set(ctx.rng)
+        req = U.parse_requirement("p" + t)
+        st = enc440.spec_tokens(req.specifier)
+        if st is None:
+            continue
+        texts.append(t)
+        lines.append("Q " + " ".join(st))
+    impl = []
+    for t in texts:
+        try:
+            impl.append("T" if V.is_possible(U.parse_requirement("p" + t)) else "F")
+        except ValueError:
+            impl.append("V")
+        except Exception as ex:  # noqa: BLE001
+            impl.append("X:" + type(ex).__name__)
+    model = common.run_model("Solver", lines)
+    return list(zip(texts, impl, model))
+
+
+_sp_correspondence = correspondence
+
+
+def correspondence(ctx: Ctx) -> None:  # noqa: F811
+    _sp_correspondence(ctx)
+    cases = possible_cases(ctx, ctx.n(1500, 40000))
+    wrong_on_impl = 0
+    new = []
+    for t, i, m in cases:
+        ctx.count("is_possible:" + i)
+        ctx.case(key=("possible", t), nontrivial=(i == "F"))
+        if m == "A":
+            ctx.count("is_possible:model-hash-order-ambiguous")
+            continue
+        if i != m:
+            ctx.mismatch("is_possible", t, i, m)
+        if i == "F":
+            v = satisfying_version(t)
+            if v is not None:
+                wrong_on_impl += 1
+                if m != "F":
+                    new.append({"spec": t, "version": v})
+    ctx.extra["is_possible_called_impossible_although_satisfiable"] = wrong_on_impl
+    ctx._possible_new = new  # type: ignore[attr-defined]
+
+
+_sp_search = search
+
+
+def search(ctx: Ctx):  # noqa: F811
+    new = getattr(ctx, "_possible_new", [])
+    if new:
+        f = new[0]
+        return {"input": {"kind": "is_possible", "specifier": f["spec"]},
+                "why": f"is_possible calls '{f['spec']}' impossible although version {f['version']} satisfies it"}
+    return _sp_search(ctx)
+
+
+_sp_replay = replay
+
+
+def replay(ctx: Ctx, payload):  # noqa: F811
+    fi = payload.get("failing_input") or {}
+    if isinstance(fi.get("input"), dict) and fi["input"].get("kind") == "is_possible":
+        import req_compile.utils as U
+        import req_compile.versions as V
+        t = fi["input"]["specifier"]
+        try:
+            return (not V.is_possible(U.parse_requirement("p" + t))) and satisfying_version(t) is not None
+        except ValueError:
+            return False
+    return _sp_replay(ctx, payload)
+
+
+_sp_replay_known = replay_known
+
+
+def replay_known(ctx: Ctx, entry):  # noqa: F811
+    if entry.get("kind") == "is_possible":
+        import req_compile.utils as U
+        import req_compile.versions as V
+        t = entry["specifier"]
+        return (not V.is_possible(U.parse_requirement("p" + t))) and satisfying_version(t) is not None
+    return _sp_replay_known(ctx, entry)
+
+
+# ----------------------------------------------------------------------------------------
+# the command-line boundary: unusable --solution arguments (T1 tr_boundary.py -> gen/BoundaryConsts.v, model/Boundary.v)
+
+_b_translate = translate
+
+
+def translate(ctx: Ctx) -> Dict[str, str]:  # noqa: F811
+    import tr_boundary
+    out = dict(_b_translate(ctx))
+    out["gen/BoundaryConsts.v"] = tr_boundary.gen_boundary_consts()
+    return out
+
+
+SOL_GOOD = [
+    "a==1.0  # b (>=1), in.txt\nb==2.0  # in.txt\n",
+    "a==1.0 \\\n    --hash=sha256:abcd\n    # via\n    #   b (>=1)\n    #   in.txt\n    # https://x/a-1.0-py3-none-any.whl\nb==2.0\n    # via in.txt\n",
+    "a==1.0  # b[x] (>=1,<2)\nb==2.0  # in.txt ([x])\nc==3.0  # a, b (!=1.0)\n",
+]
+SOL_FRAGMENTS = ["a", "a>=1.0", "a==1.0", "a==1.0,==2.0", "a==1.x", "a[x]==1.0", "a ;;", "-e .", "a==1.0 ; extra == \"x\"", ""]
+ANN_FRAGMENTS = ["", " ", " via", " via ", " via b(>=1)", " via b (>=1)", " b (>=1), in.txt", " b (", " b (>=)", " b ([x)", " b ([x])", " [", " [idx", " [idx] b",
+                 " https://x/a.whl", " via\n    #   b(>=1)", " via\n    #   b (>=1)\n    # https://x/a-1.0.tar.gz#sha256=ab", " b, , c", " (>=1)", " b )>=1(", " é (>=1)", " b (>=1) (>=2)"]
+EXC_MAP = [("RepositoryInitializationError", "ERepoInit"), ("ValueError", "EValueError"), ("TypeError", "ETypeError"), ("IndexError", "EIndexError"),
+           ("KeyError", "EKeyError"), ("AttributeError", "EAttributeError"), ("AssertionError", "EAssertionError"), ("OSError", "EOSError"),
+           ("NoCandidateException", "ENoCandidate"), ("MetadataError", "EMetadata"), ("Exception", "EOtherException"), ("BaseException", "EBaseOnly")]
+
+
+def exc_ctor(ex: BaseException) -> str:
+    names = [c.__name__ for c in type(ex).__mro__]
+    for py, coq in EXC_MAP:
+        if py in names:
+            return coq
+    return "EBaseOnly"
+
+
+def gen_solution_text(rng) -> Any:
+    r = rng.random()
+    if r < 0.2:
+        return "well-formed", rng.choice(SOL_GOOD)
+    if r < 0.45:       # a well-formed file with one line damaged
+        lines = rng.choice(SOL_GOOD).split("\n")
+        i = rng.randrange(len(lines))
+        k = rng.random()
+        if k < 0.3:
+            lines[i] = lines[i].replace("==", rng.choice(["", ">=", "=", "==="]), 1)
+        elif k < 0.6:
+            lines[i] = lines[i].replace(" (", rng.choice(["(", " ((", " "]), 1)
+        elif k < 0.8:
+            lines[i] = lines[i].replace("#", rng.choice(["", "##", "# #"]), 1)
+        else:
+            del lines[i]
+        return "damaged-line", "\n".join(lines)
+    out = []
+    for _ in range(rng.choice([1, 1, 2, 3])):
+        out.append(rng.choice(SOL_FRAGMENTS) + rng.choice(["  #", " #", "#", "\n    #", ""]) + rng.choice(ANN_FRAGMENTS))
+    return "assembled", "\n".join(out) + "\n"
+
+
+def run_cmdline_solution(text: str, tmp) -> Dict[str, Any]:
+    """req-compile --solution <file> --no-index <inputs> in-process; also records what _add_sources raised (monkeypatched
+    observer, nothing in /repo is edited)"""
+    import contextlib
+    import io
+    import req_compile.cmdline as CL
+    import req_compile.repos.solution as SOLM
+    sol, inp = tmp / "boundary-sol.txt", tmp / "boundary-in.txt"
+    sol.write_text(text, encoding="utf-8")
+    inp.write_text("b\n")
+    inner: List[str] = []
+    orig = SOLM.SolutionRepository._add_sources
+
+    def spy(self, *a, **k):
+        try:
+            return orig(self, *a, **k)
+        except BaseException as ex:  # noqa: BLE001
+            inner.append(exc_ctor(ex))
+            raise
+    SOLM.SolutionRepository._add_sources = spy
+    out, err = io.StringIO(), io.StringIO()
+    # write_requirements_file's default stream is the sys.stdout of import time: hand it ours for the call
+    wrf = CL.write_requirements_file
+    saved_defaults = wrf.__defaults__
+    wrf.__defaults__ = tuple(out if d is sys.__stdout__ or d is sys.stdout else d for d in saved_defaults)
+    try:
+        with contextlib.redirect_stdout(out), contextlib.redirect_stderr(err):
+            CL.compile_main(["--solution", str(sol), "--no-index", str(inp)])
+        res = {"outcome": "exit", "code": 0}
+    except SystemExit as ex:
+        res = {"outcome": "exit", "code": ex.code if isinstance(ex.code, int) else (0 if ex.code is None else 1)}
+    except BaseException as ex:  # noqa: BLE001
+        res = {"outcome": "traceback", "class": type(ex).__name__, "msg": str(ex)[:120]}
+    finally:
+        SOLM.SolutionRepository._add_sources = orig
+        wrf.__defaults__ = saved_defaults
+    res["inner"] = inner[:1]
+    res["stderr_tail"] = err.getvalue().strip().split("\n")[-1][:160]
+    return res
+
+
+def boundary(ctx: Ctx) -> None:
+    import logging
+    tmp = ctx.tmpdir()
+    rng = ctx.rng
+    seen_inner: Dict[str, int] = {}
+    new = []
+    root_level = logging.getLogger().level
+    for _ in range(ctx.n(400, 6000)):
+        kind, text = gen_solution_text(rng)
+        r = run_cmdline_solution(text, tmp)
+        ctx.count("solution-arg:" + kind)
+        ctx.count("solution-arg-outcome:" + (r["outcome"] + (str(r.get("code")) if r["outcome"] == "exit" else ":" + r["class"])))
+        ctx.case(key=("solution-arg", text), nontrivial=(r["outcome"] == "exit" and r.get("code") == 1))
+        for e in r["inner"]:
+            seen_inner[e] = seen_inner.get(e, 0) + 1
+            ctx.count("solution-arg-inner:" + e)
+        if r["outcome"] == "traceback" and not new:
+            new.append({"solution_text": text, "observed": r})
+        elif r["outcome"] == "exit" and r["inner"] and r.get("code") != 1 and not new:
+            new.append({"solution_text": text, "observed": r})
+    logging.getLogger().setLevel(root_level)
+    # the model's verdict for every exception class seen inside _add_sources (and for all the others) is Exits 1
+    ctors = sorted(set(seen_inner) | {c for _, c in EXC_MAP if c != "EBaseOnly"})
+    term = "[" + "; ".join(f"match solution_line_failure {c} with Exits n => n | Propagates _ => 99 end" for c in ctors) + "]"
+    ok, out = common.coq_eval("c09_boundary", "From Coq Require Import List.\nImport ListNotations.\nFrom RC Require Import model.BoundaryTypes gen.BoundaryConsts model.Boundary.",
+                              [f"Eval vm_compute in {term}."])
+    want = "[" + ";".join("1" for _ in ctors) + "]"
+    got = "".join(out.split()).split(":")[0].lstrip("=")
+    if not ok or got != want:
+        ctx.mismatch("boundary-model", ctors, want, out[-400:])
+    if new:
+        ctx.mismatch("solution-argument-boundary", {"solution_text": new[0]["solution_text"]}, new[0]["observed"], "exit 1 with a diagnostic")
+    ctx._boundary_new = new  # type: ignore[attr-defined]
+
+
+_p_correspondence = correspondence
+
+
+def correspondence(ctx: Ctx) -> None:  # noqa: F811
+    _p_correspondence(ctx)
+    boundary(ctx)
+
+
+_p_search = search
+
+
+def search(ctx: Ctx):  # noqa: F811
+    new = getattr(ctx, "_boundary_new", [])
+    if new:
+        o = new[0]["observed"]
+        what = (f"a traceback ({o.get('class')}: {o.get('msg')})" if o["outcome"] == "traceback" else f"exit status {o.get('code')}")
+        return {"input": {"kind": "solution-argument", "solution_text": new[0]["solution_text"], "argv": ["--solution", "<file>", "--no-index", "<file containing 'b'>"]},
+                "why": f"req-compile --solution <file> ends in {what} instead of a diagnostic and exit status 1"}
+    return _p_search(ctx)
+
+
+_p_replay = replay
+
+
+def replay(ctx: Ctx, payload):  # noqa: F811
+    fi = payload.get("failing_input") or {}
+    if isinstance(fi.get("input"), dict) and fi["input"].get("kind") == "solution-argument":
+        r = run_cmdline_solution(fi["input"]["solution_text"], ctx.tmpdir())
+        return r["outcome"] == "traceback"
+    return _p_replay(ctx, payload)
